@@ -45,7 +45,17 @@ EncodeClause(r) ==
   ELSE IF r.text2 # r.text THEN "second-pass-differs"
   ELSE ""
 
-Verdict(r) == IF r.t = "decode" THEN DecodeClause(r) ELSE EncodeClause(r)
+(* measures with hundreds of thousands of rows: judged on what the harness measured on the (megabytes long) text *)
+EncodeBigClause(r) ==
+  IF ~(StrictlyIncreasing(r.notes) /\ \A k \in DOMAIN r.notes : WellFormedNote(r.notes[k], r.cols)) THEN "domain:stream-not-sorted"
+  ELSE IF r.st # "ok" THEN "encode-raised"
+  ELSE IF r.back # r.notes THEN "read-back-differs"
+  ELSE IF r.columns # r.cols \/ ~r.wide THEN "columns"
+  ELSE IF r.shape # ExpectedShape(r.notes) THEN "measure-shape"
+  ELSE IF ~r.stable THEN "second-pass-differs"
+  ELSE ""
+
+Verdict(r) == IF r.t = "decode" THEN DecodeClause(r) ELSE IF r.t = "encodebig" THEN EncodeBigClause(r) ELSE EncodeClause(r)
 Init == i = 1
 Next == i <= N /\ PrintT(ToJson([id |-> Recs[i].id, clause |-> Verdict(Recs[i])])) /\ i' = i + 1
 Spec == Init /\ [][Next]_i
